@@ -22,7 +22,9 @@ Deliberate approximations (may-alias / may-write direction; see DESIGN.md §C19)
   * unknown callables (function-valued variables, third-party calls outside the allow-lists) return something aliasing all their
     arguments (kind v) and are assumed not to write their arguments;
   * arithmetic, comparisons and allow-listed numpy/pandas constructors and methods return fresh objects;
-  * x op= v on a name is a buffer write only for kinds o/v (for kind e the name is taken to be a scalar).
+  * x op= v on a name is a buffer write only for kinds o/v (for kind e the name is taken to be a scalar);
+  * func = getattr(<module>, <name expr>) stands for every public top-level function of that module (matching a constant f-string prefix);
+    a call through it binds every parameter of every candidate to all arguments.
 """
 from __future__ import annotations
 
@@ -50,7 +52,7 @@ FRESH_METHODS = {
     "is_null", "is_not_null", "null_count", "cast", "fill_null", "drop_nulls", "combine_chunks", "dictionary_encode", "to_pylist",
     "total_seconds", "count", "diff", "std", "var", "prod", "dot", "flatten", "nunique", "value_counts", "groupby", "reindex", "sort_values",
     "sort_index", "droplevel", "rename", "rename_axis", "set_axis", "to_frame", "reset_index", "unstack", "stack", "isin", "duplicated", "drop",
-    "drop_duplicates", "dropna", "where", "mask", "replace", "between", "mul", "div", "floordiv", "truediv", "bind", "bind_partial",
+    "drop_duplicates", "dropna", "where", "mask", "replace", "between", "mul", "div", "floordiv", "truediv",
     "get_loc", "union", "intersection", "difference", "concat", "tz_localize", "tz_convert", "as_unit", "isoformat", "set_index", "set_levels",
     "cumcount", "rank", "quantile", "median", "agg", "transform", "select", "with_columns", "to_list", "rechunk", "to_physical", "len",
     "is_empty", "alias", "set_names", "remove_unused_categories", "remove_categories", "add_categories", "reorder_categories", "set_categories",
@@ -73,6 +75,7 @@ PURE_BUILTINS = {"len", "int", "float", "bool", "str", "range", "isinstance", "t
 CONTAINER_BUILTINS = {"list", "tuple", "dict", "zip", "enumerate", "reversed", "map", "filter", "sorted", "set", "frozenset", "OrderedDict", "defaultdict", "chain"}
 
 E = frozenset()
+MODULE_ALIASES: dict = {}
 
 
 def kinds(al, ks):
@@ -121,9 +124,18 @@ class FnInfo:
 def collect(pkg: Path):
     fns: dict[str, FnInfo] = {}
     by_name: dict[str, list[str]] = {}
+    MODULE_ALIASES.clear()
     for f in sorted(pkg.rglob("*.py")):
         mod = ".".join(f.relative_to(pkg.parent).with_suffix("").parts)
         tree = ast.parse(f.read_text())
+        for node in ast.walk(tree):
+            # `from . import numba as numba_funcs`, `from groupby_lib import nanops`: module-valued names (for getattr(module, name) dispatch)
+            if isinstance(node, ast.ImportFrom):
+                for a in node.names:
+                    MODULE_ALIASES.setdefault(mod, {})[a.asname or a.name] = a.name
+            elif isinstance(node, ast.Import):
+                for a in node.names:
+                    MODULE_ALIASES.setdefault(mod, {})[a.asname or a.name.split(".")[-1]] = a.name.split(".")[-1]
 
         def visit(body, prefix, cls):
             for n in body:
@@ -287,6 +299,9 @@ class Interp:
             r = kw_roots[k.arg]
             if k.arg is None:
                 known = self.env.get("@kw:" + k.value.id) if isinstance(k.value, ast.Name) else None
+                if isinstance(k.value, ast.Call) and isinstance(k.value.func, ast.Name) and k.value.func.id == "locals" and not k.value.args:
+                    # f(**locals()): every local variable by name
+                    known = {nm: al for nm, al in self.env.items() if not nm.startswith("@") and not nm.startswith("self.")}
                 if known is not None:
                     for key, al in known.items():
                         if key in callee.params:
@@ -340,6 +355,23 @@ class Interp:
                 self.write(recv, e, "buf")
             if fname in OBJ_MUTATORS:
                 self.write(recv, e, "obj")
+        if isinstance(f, ast.Attribute) and fname in ("bind", "bind_partial"):
+            return rekind(allr, HOLD)          # inspect.Signature.bind: a container of the arguments
+        if isinstance(f, ast.Attribute) and isinstance(f.value, ast.Name) and fname in ("append", "extend", "add", "insert", "update", "setdefault") \
+                and f.value.id in self.env and not kinds(self.env[f.value.id], ("o", "v", "e")):
+            # growing a locally created container: it now holds the arguments as well
+            self.env[f.value.id] = self.env[f.value.id] | rekind(allr, HOLD)
+        # ---- dispatch through getattr(module, name) ----
+        fnset = self.fnset_of(f)
+        if fnset:
+            out = set()
+            for tgt in fnset:
+                callee = self.fns[tgt]
+                pos = callee.positional[1:] if callee.is_method else callee.positional
+                binding = {p: set(rekind(allr, VIEW)) for p in pos + [x for x in callee.params if x not in pos]}
+                self.fn.calls.append((tgt, binding, e.lineno))
+                out |= self.result_of(callee, binding)
+            return frozenset(out)
         # ---- library functions ----
         if fname == "parallel_map" and len(e.args) >= 2:
             return self.parallel_map(e, arg_roots)
@@ -393,8 +425,48 @@ class Interp:
             return rekind(allr, VIEW)
         return rekind(allr, VIEW)
 
+    def fnset_of(self, node):
+        if isinstance(node, ast.Name):
+            return self.env.get("@fnset:" + node.id) or ()
+        return ()
+
+    def getattr_candidates(self, call):
+        """getattr(<module alias>, <name expr>): all top-level functions of that module (filtered by a constant f-string prefix)"""
+        if not (isinstance(call, ast.Call) and isinstance(call.func, ast.Name) and call.func.id == "getattr" and len(call.args) >= 2):
+            return ()
+        base = call.args[0]
+        if not isinstance(base, ast.Name) or base.id in self.env:
+            return ()
+        target_mod = MODULE_ALIASES.get(self.fn.module, {}).get(base.id)
+        if target_mod is None:
+            return ()
+        prefix = ""
+        nm = call.args[1]
+        if isinstance(nm, ast.JoinedStr) and nm.values and isinstance(nm.values[0], ast.Constant):
+            prefix = str(nm.values[0].value)
+        elif isinstance(nm, ast.Constant):
+            prefix = str(nm.value)
+        out = []
+        for q, fn in self.fns.items():
+            mod, name = q.split(":")
+            # (dispatch by name is taken to reach the module's public functions only)
+            if mod.split(".")[-1] == target_mod and "." not in name and name.startswith(prefix) and not name.startswith("_"):
+                out.append(q)
+        return tuple(out)
+
     def parallel_map(self, e, arg_roots):
         func_node = e.args[0]
+        fnset = self.fnset_of(func_node)
+        if fnset:
+            generic = rekind(rekind(arg_roots[1], ELEM), ELEM) | rekind(arg_roots[1], ELEM)
+            out = set()
+            for tgt in fnset:
+                callee = self.fns[tgt]
+                pos = callee.positional[1:] if callee.is_method else callee.positional
+                binding = {p: set(generic) for p in pos}
+                self.fn.calls.append((tgt, binding, e.lineno))
+                out |= rekind(self.result_of(callee, binding), HOLD)
+            return frozenset(out)
         bag = self.bundle_of(e.args[1])
         generic = rekind(arg_roots[1], ELEM)           # an argument tuple drawn from the list
         generic = rekind(generic, ELEM)                # ... and one element of that tuple
@@ -468,7 +540,11 @@ class Interp:
             self.env.pop("@bundle:" + target.id, None)
             self.env.pop("@fn:" + target.id, None)
             self.env.pop("@kw:" + target.id, None)
+            self.env.pop("@fnset:" + target.id, None)
             if value_node is not None:
+                cands = self.getattr_candidates(value_node)
+                if cands:
+                    self.env["@fnset:" + target.id] = cands
                 kd = self.kwdict_of(value_node)
                 if kd is not None:
                     self.env["@kw:" + target.id] = kd
@@ -509,6 +585,9 @@ class Interp:
         out = {}
         for k in set(a) | set(b):
             va, vb = a.get(k), b.get(k)
+            if k.startswith("@fnset:"):
+                out[k] = tuple(sorted(set(va or ()) | set(vb or ())))
+                continue
             if k.startswith("@fn:"):
                 if va == vb:
                     out[k] = va
